@@ -74,7 +74,7 @@ Proof.
   intros (W & N & I) H. apply step_drain_reply in H. cbv zeta in H.
   destruct N as (N1 & N2 & N3 & N4).
   destruct H as [(Hh & ->)|(o0 & Hh & Hslot & ->)].
-  - apply (static_all s); [exact (conj W (conj (conj N1 (conj N2 (conj N3 N4))) I))| | | | | |];
+  - apply (static_all s); [exact (conj W (conj (conj N1 (conj N2 (conj N3 N4))) I))| | | | | | |];
       intros; unfold_views; autorewrite with frame; eqb_cases; simpl; auto.
     rewrite Hh. reflexivity.
   - assert (HA : o_where (go s o0) = PHold c).
